@@ -115,6 +115,20 @@ def wantUnit (script : List SOp) (items : List Item) (data : Bytes) (dataAbs : N
       | .rArrBin sz _ _ =>
         if sz == 1 ∨ sz == 2 ∨ sz == 4 ∨ sz == 8 then go ops rest stop anyErr 0 acc
         else go ops rest stop true remaining (acc ++ [.err (-310) "array_item_size"])
+      | .builtin b =>
+        -- the library's handlers: *RST calls the reset callback; *ESE *SRE STAT:…:ENAB read one mandatory int32 (no reader
+        -- token: the real handler is called), and *ESE / *SRE return an error when it fails
+        match b with
+        | .rst => go ops rest stop anyErr remaining (acc ++ [.other "Z"])
+        | .ese | .sre | .quesEnab | .operEnab =>
+          match expect (.int 32 true) true (rest.head?.map itemOf) with
+          | .ok => go ops (rest.drop 1) stop anyErr remaining acc
+          | .fail e =>
+            let acc := acc ++ (match e with | some x => [Want.err x "reader_error"] | none => [])
+            let anyErr' := anyErr || e.isSome
+            if b == .ese || b == .sre then (if !anyErr' then acc ++ [.err (-200) "execution_error"] else acc)
+            else go ops (rest.drop 1) stop anyErr' remaining acc
+        | _ => go ops rest stop anyErr remaining acc
       | .pArrInt w s cap m =>
         -- up to cap integers; the first follows `m`, the others are optional
         let rd := Reader.int w s
@@ -227,10 +241,10 @@ def judgeParams (cmds : List Cmd) (toks : List String) : List String :=
                 | none => acc ++ ["C05.judge_cannot_itemise"]
               else acc ++ ["C05.unexpected_event"]
             | [] => acc ++ ["C05.missing_event"]
-      walk us (m.events.filter (· != "E-350")) [])
+      walk us (m.events.filter (fun t => t != "E-350" && t != "E0")) [])
     -- the input call returns false exactly when it overran or the last message it executed raised an error
     let overrun := call.pre.any (· == "E-363")
-    let lastErr := match call.msgs.getLast? with | some m => m.events.any (·.startsWith "E") | none => false
+    let lastErr := match call.msgs.getLast? with | some m => m.events.any (fun t => t.startsWith "E" && t != "E0") | none => false
     let wantR := !(overrun || lastErr)
     perMsg ++ (if call.result != wantR then ["C05.input_result"] else []))
 
